@@ -9,6 +9,9 @@ from . import core
 from .core import Sym, SNum, SBool, SAngle, SSqrt, is_sym, Unsupported, ctx, zreal
 
 
+STATE = {"lazy": False}     # harness option: build lazy arrays even for concrete extents (ndim >= 2)
+
+
 def _is_larray(x):
     return type(x).__name__ == "LArray"
 
@@ -263,11 +266,13 @@ def _creation(name):
                         out[idx] = fill
                 return out
             if has_sym(shape):
-                raise Unsupported("np.full with symbolic shape")
+                from . import larray
+                return larray.full(tuple(shape), fill, "float64" if dt is None else _np.dtype(dt).name)
             r = real(shape, *a, **k)
         else:
-            if has_sym(shape):
-                raise Unsupported("np.%s with symbolic shape" % name)
+            if has_sym(shape) or (STATE["lazy"] and isinstance(shape, (tuple, list, _np.ndarray)) and len(shape) >= 2):
+                from . import larray
+                return larray.full(tuple(shape), {"zeros": 0.0, "ones": 1.0, "empty": 0.0}[name], "float64" if dt is None else _np.dtype(dt).name)
             r = real(shape, *a, **k)
         if dt is None and r.dtype == _np.float64 and name != "empty":
             return r.astype(object)  # may receive symbolic entries later
@@ -277,6 +282,24 @@ def _creation(name):
             return o
         return r
     return f
+
+
+class _MGrid:
+    def __getitem__(self, key):
+        if not isinstance(key, tuple):
+            key = (key,)
+        if not any(has_sym(sl.start) or has_sym(sl.stop) for sl in key) and not (STATE["lazy"] and len(key) >= 2):
+            return _np.mgrid[key]
+        from . import larray
+        shape = []
+        for sl in key:
+            if sl.step not in (None, 1) or (sl.start not in (None, 0)):
+                raise Unsupported("mgrid with start/step")
+            shape.append(sl.stop)
+        out = []
+        for ax in range(len(key)):
+            out.append(larray.LArray(shape, (lambda idx, ax=ax: idx[ax] if isinstance(idx[ax], Sym) else int(idx[ax])), "int64"))
+        return out if len(out) > 1 else out[0]
 
 
 class NPX(types.ModuleType):
@@ -317,6 +340,12 @@ class NPX(types.ModuleType):
 
     @staticmethod
     def _array(x, *a, **k):
+        if _is_larray(x):
+            from . import lnp
+            return lnp.array(x, *a, **k)
+        if isinstance(x, (list, tuple)) and x and all(_is_larray(v) for v in x):
+            from . import lnp
+            return lnp.stack(list(x), axis=0)
         if has_sym(x) and not isinstance(x, _np.ndarray):
             return obj(x).copy()
         return _np.array(x, *a, **k)
@@ -325,9 +354,16 @@ class NPX(types.ModuleType):
     def _asarray(x, *a, **k):
         if _is_larray(x):
             return x
+        if isinstance(x, (list, tuple)) and x and all(_is_larray(v) for v in x):
+            from . import lnp
+            return lnp.stack(list(x), axis=0)
         if has_sym(x) and not isinstance(x, _np.ndarray):
             return obj(x)
         return _np.asarray(x, *a, **k)
+
+    @property
+    def mgrid(self):
+        return _MGrid()
 
     def __getattr__(self, name):
         ov = self.__dict__.get("_over", {})
@@ -336,8 +372,17 @@ class NPX(types.ModuleType):
         real = getattr(_np, name)
         if isinstance(real, (types.FunctionType, types.BuiltinFunctionType, _np.ufunc)) or (callable(real) and not isinstance(real, type) and not isinstance(real, types.ModuleType)):
             def wrapped(*a, **k):
-                if any(_is_larray(v) for v in a):
-                    return getattr(a[0].__class__, "np_" + name)(*a, **k)
+                if STATE["lazy"] and name in ("meshgrid", "tile"):
+                    from . import lnp, larray
+                    if name == "meshgrid":
+                        return lnp.meshgrid(*a, **k)
+                    if isinstance(a[0], _np.ndarray) and has_sym(a[0]):
+                        return lnp.tile(larray.from_numpy(a[0]), *a[1:], **k)
+                if any(_is_larray(v) for v in a) or any(_is_larray(v) for v in k.values()) or (a and isinstance(a[0], (list, tuple)) and any(_is_larray(v) for v in a[0])):
+                    from . import lnp
+                    if not hasattr(lnp, name):
+                        raise Unsupported("numpy.%s on a lazy array" % name)
+                    return getattr(lnp, name)(*a, **k)
                 return real(*[_demote(v) for v in a], **{kk: _demote(v) for kk, v in k.items()})
             wrapped.__name__ = name
             return wrapped
